@@ -148,6 +148,12 @@ def litmus():
         problems.append("head-to-head rendezvous must deadlock")
     if len(explore(ws, 3)) != 2 or len(explore(ws, 3, send_mode="rendezvous")) != 2:
         problems.append("two senders / wildcard receive must give both orders")
+    def cc(r):
+        return [C.allgather(r * 10), C.scatter([5, 6, 7] if r == 1 else None, root=1), C.reduce(r + 1, op=MPI.SUM, root=2),
+                C.allreduce(r + 1, op=MPI.MAX)]
+
+    if explore(cc, 3) != {"([[[0, 10, 20], 5, None, 3], [[0, 10, 20], 6, None, 3], [[0, 10, 20], 7, 6, 3]], False)"}:
+        problems.append(f"composed collectives: {explore(cc, 3)}")
     if explore(no, 2) != {"([[0, 1, 2], None], False)"}:
         problems.append("non-overtaking")
     if problems:
